@@ -302,7 +302,7 @@ GStepActive(cs, ev, q, tol) ==
                            outs[k].txt = c.txt \/ ~TxtIn(outs[k].txt, cf.enter)>>,
           \* an entering move that does not itself retract yields the enter script and nothing else
           <<"C06", "C06.enter_exact",
-             (mon /\ eabsOK1 /\ opening /\ g1.fil >= g0.fil /\ ev.res # "exc")
+             (mon /\ opening /\ g1.fil >= g0.fil /\ ev.res # "exc")
                 => nout = Len(cf.enter)>>,
           <<"C06", "C06.flush",
              (mon /\ ev.res # "exc") =>
